@@ -147,10 +147,52 @@ class EventRule:
     def havoc_args(self, I, w, ci, args, ev):
         """user code may mutate whatever it gets a `&mut` to"""
         if ev.startswith('CB') or ev == 'DISPATCH':
+            pairs = []
             for a, ty in zip(args, ci.arg_tys):
+                pairs.append((a, ty))
+                # Fn* call ABI: the arguments arrive as one tuple
+                if ty.get('k') == 'tuple' and a[0] == 'tuple' and len(ty.get('of', [])) == len(a[1]):
+                    pairs.extend(zip(a[1], ty['of']))
+            for a, ty in pairs:
                 if ty.get('k') == 'ref' and ty.get('mut') and a[0] == 'ref' and a[1][0] not in ('const', 'val'):
                     w = self.havoc_target(I, w, a[1], ev)
         return w
+
+    def on_opaque(self, I, w, ci, args):
+        """A closure that can reach an event (sink write, user callback) handed to a function the analysis has neither a
+        body nor a model for: how often it runs and what becomes of its results is unknown, so nothing can be decided
+        about the events inside it (fail closed)."""
+        def closures(v, d=0):
+            if d > 4 or not isinstance(v, tuple) or not v:
+                return
+            if v[0] == 'closure':
+                yield v
+                for x in v[2]:
+                    for c in closures(x, d + 1):
+                        yield c
+            elif v[0] == 'ref' and v[1] and v[1][0] not in ('const', 'val'):
+                try:
+                    for c in closures(I.read(w, v[1]), d + 1):
+                        yield c
+                except Exception:
+                    return
+            elif v[0] == 'ref' and v[1] and v[1][0] == 'const':
+                for c in closures(v[1][1], d + 1):
+                    yield c
+            elif v[0] == 'adt':
+                for x in v[3]:
+                    for c in closures(x, d + 1):
+                        yield c
+            elif v[0] == 'tuple':
+                for x in v[1]:
+                    for c in closures(x, d + 1):
+                        yield c
+        for a in args:
+            for c in closures(a):
+                if F.raw_key(c[1]) in self._interesting:
+                    raise Inconclusive("a closure that performs sink writes or user callbacks (%s) is passed to `%s` at %s, "
+                                       "for which there is no model: how often it runs and whether its results are "
+                                       "propagated cannot be decided" % (F.norm_path(c[1]), ci.npath, ci.span))
 
     def havoc_target(self, I, w, target, ev):
         return I.write(w, target, TOP)
